@@ -77,6 +77,8 @@ def cases(tier, seed):
         yield dict(kind='spelling', variant=v, tier=tier)
     yield dict(kind='none', tier=tier)
     yield dict(kind='array', tier=tier)
+    for nch in (9, 10, 12, 23):
+        yield dict(kind='vendor', nch=nch, tier=tier)
     for cont in ('int sample', 'float sample', 'double sample', 'int array', 'double array'):
         yield dict(kind='lattice', container=cont, tier=tier)
     yield dict(kind='refuse', tier=tier)
@@ -278,6 +280,31 @@ def run_case(c):
             res.counters['lattice_states'] += len(states)
             res.counters['lattice_transitions'] += ntr
             res.sample({'container': cont, 'states': len(states), 'transitions': ntr})
+        elif c['kind'] == 'vendor':
+            # gains recorded only in the vendor keywords (FlowJo Collector's Edition: CytekPnnG), on files with ten and more channels
+            nch = c['nch']
+            gains = [1.5 + 0.25 * j for j in range(nch)]
+            lay = dict(datatype='I', bits=[16] * nch, ranges=[1024] * nch, pne=['0,0'] * nch, byteord='4,3,2,1',
+                       events=[[(37 * i + 11 * j) % 1024 for j in range(nch)] for i in range(40)],
+                       extra=[('CREATOR', 'FlowJoCollectorsEdition 7.5')] + [('CytekP%02dG' % (j + 1), repr(gains[j])) for j in range(nch)])
+            pv = os.path.join(scratch(), 'c03_vendor.fcs')
+            buf, _ = fcsgen.build(lay)
+            with open(pv, 'wb') as f:
+                f.write(buf)
+            dv = FlowCal.io.FCSData(pv)
+            vbase = np.array(dv.view(np.ndarray))
+            reqs = [(None, list(range(nch)))] + [(j, [j]) for j in range(nch)] + [('CH%d' % (j + 1), [j]) for j in range(nch)] + \
+                   [([nch - 1, 0, nch // 2], [nch - 1, 0, nch // 2])]
+            for req, cols in reqs:
+                what = 'to_rfi(sample with %d linear channels, gains in CytekPnnG only, %r)' % (nch, req)
+                try:
+                    t = to_rfi(dv, req)
+                except Exception as e:
+                    res.violation('vendor:raises:%s' % type(e).__name__, '%s raised %s: %s' % (what, type(e).__name__, e), dict(c))
+                    continue
+                if expect_ok(res, 'vendor', what, dv, vbase, t, {j: (lambda x, g=gains[j]: x / g) for j in cols}, dict(c)):
+                    res.ok('vendor', True)
+            res.sample({'channels': nch, 'gains': 'CytekP01G..CytekP%02dG' % nch})
         elif c['kind'] == 'narrow':
             # events held in 8- and 16-bit unsigned types, every value of the type's upper half included; settings given
             # as Python ints, floats, or taken from the file
